@@ -34,7 +34,7 @@ theorem read4_le {m : Mem} {a v : Nat} (h : m.read a 4 = some v) : v ≤ U32MAX 
     split at h
     · injection h with h
       subst h
-      have := leAt_lt_w m 4 (a - m.base)
+      have := Mem.wordAt_lt m (a - m.base) 4
       simp only [U32MAX]
       omega
     · cases h
